@@ -62,7 +62,10 @@ void operator delete(void *p) noexcept { free(p); }
 void operator delete[](void *p) noexcept { free(p); }
 void operator delete(void *p, size_t) noexcept { free(p); }
 void operator delete[](void *p, size_t) noexcept { free(p); }
+#include <exception>
+static void verif_terminate() { printf("ASSUME-STOP\n"); fflush(stdout); _Exit(0); }   // uncaught C++ exception = cut path (assume(false)) in the model
 int main(int argc, char **argv) {
+  std::set_terminate(verif_terminate);
   if (argc > 1) verif_stream = fopen(argv[1], "r");
   VERIF_ENTRY();
   printf("END\n");
